@@ -23,8 +23,9 @@ def post_copy_covers_all(ck: Checker, rule: str) -> None:
     oparam = "oid" if fn.has_param("oid") else fn.pos_params[3] if len(fn.pos_params) > 3 else "oid"
     req = {oparam}
     for a in walk_own(fn.node):
-        if isinstance(a, ast.Assign) and len(a.targets) == 1 and isinstance(a.targets[0], ast.Name) and any(isinstance(x, ast.Name) and x.id == oparam for x in walk_expr(a.value)) and isinstance(a.value, (ast.IfExp, ast.List, ast.Name, ast.Call)):
-            req.add(a.targets[0].id)
+        tg_ = a.targets[0] if isinstance(a, ast.Assign) and len(a.targets) == 1 else (a.target if isinstance(a, ast.AnnAssign) and a.value is not None else None)
+        if isinstance(tg_, ast.Name) and any(isinstance(x, ast.Name) and x.id == oparam for x in walk_expr(a.value)) and isinstance(a.value, (ast.IfExp, ast.List, ast.Name, ast.Call)):
+            req.add(tg_.id)
     oids_name = next((r for r in sorted(req) if r != oparam), oparam)
     for n in prot:
         h = g.nodes[n.loops[-1]]
